@@ -21,6 +21,8 @@ def check_case(rep, case):
         before = tc.flatten(eng.state.get_value())
         eng.update(1)
         after = tc.flatten(eng.state.get_value())
+        eng.update(1)
+        after2 = tc.flatten(eng.state.get_value())
     except Exception as e:
         rep.violation(sig, 'C06 engine raised %r for case %s' % (e, tc.case_id(case)),
                       {'case': case})
@@ -32,23 +34,31 @@ def check_case(rep, case):
                           'C06 node %s holds %r before the update, expected %r; case %s'
                           % (n, before.get(n), b.initial[n], tc.case_id(case)), {'case': case})
             return
-    view = b.log[0] if b.log else None
-    exp_view = tc.expected_view(b, b.initial)
-    if view != exp_view:
-        rep.violation(dict(sig, what='view'),
-                      'C06 the process reads %r, the nodes it is wired to hold %r; case %s'
-                      % (view, exp_view, tc.case_id(case)), {'case': case})
-        return
     exp_after = dict(before)
     for x in b.variables:
         n = tuple(x['node'])
         exp_after[n] = exp_after[n] + b.amount[(x['port'], tuple(x['v']))]
-    if after != exp_after:
-        diff = {str(k): (after.get(k), exp_after.get(k))
-                for k in set(after) | set(exp_after) if after.get(k) != exp_after.get(k)}
-        rep.violation(dict(sig, what='write'),
-                      'C06 after one update (got, expected) differ at %s; case %s'
-                      % (diff, tc.case_id(case)), {'case': case, 'diff': diff})
+    exp_after2 = dict(exp_after)
+    for x in b.variables:
+        n = tuple(x['node'])
+        exp_after2[n] = exp_after2[n] + b.amount[(x['port'], tuple(x['v']))]
+    for k, (view, values) in enumerate(((b.log[0] if b.log else None, b.initial),
+                                        (b.log[1] if len(b.log) > 1 else None, exp_after))):
+        exp_view = tc.expected_view(b, values)
+        if view != exp_view:
+            rep.violation(dict(sig, what='view', update=k + 1),
+                          'C06 at its update %d the process reads %r, the nodes it is wired to '
+                          'hold %r; case %s' % (k + 1, view, exp_view, tc.case_id(case)),
+                          {'case': case})
+            return
+    for k, (got, exp) in enumerate(((after, exp_after), (after2, exp_after2))):
+        if got != exp:
+            diff = {str(n): (got.get(n), exp.get(n))
+                    for n in set(got) | set(exp) if got.get(n) != exp.get(n)}
+            rep.violation(dict(sig, what='write', update=k + 1),
+                          'C06 after update %d (got, expected) differ at %s; case %s'
+                          % (k + 1, diff, tc.case_id(case)), {'case': case, 'diff': diff})
+            return
     nodes = [tuple(x['node']) for x in b.variables]
     if len(set(nodes)) < len(nodes) or any('..' in p['p'] for p in case['ports']) \
             or any(p['t'] == 'dict' for p in case['ports']):
